@@ -64,5 +64,9 @@ keywords = LanguageKeywords("Java", [
     "float",
     "native",
     "super",
-    "while"
+    "while",
+    # literals: not keywords, but not usable as identifiers either
+    "true",
+    "false",
+    "null"
 ])
